@@ -1,5 +1,4 @@
 // ---- VFS unit: opaque flag words (routing only forwards them), opaque helper types
-#[derive(Clone, Copy)] pub struct FsOptions { pub bits: u64 }
 #[derive(Clone, Copy)] pub struct OpenOptions { pub bits: u32 }
 #[derive(Clone, Copy)] pub struct SetattrValid { pub bits: u32 }
 pub mod virtio_fs { pub use super::RemovemappingOne; }
